@@ -1,13 +1,27 @@
 import AvoVerif.Props.C08
+import AvoVerif.Props.C08Regs
+#print axioms Avo.Mov.acceptSel_sound
+#print axioms Avo.Mov.acceptStoreBytes_sound
+#print axioms Avo.Mov.acceptLoadGP_sound
+#print axioms Avo.Mov.acceptLoadLow_sound
+#print axioms Avo.Mov.tab_complete
+#print axioms Avo.Mov.tab_opcodes_modelled
+#print axioms Avo.Mov.tab_type_determined
+#print axioms Avo.Mov.tab_address_independent
 #print axioms Avo.Mov.mov_table_resolved
-#print axioms Avo.Mov.mov_default
 #print axioms Avo.Mov.mov_opcodes_modelled
+#print axioms Avo.Mov.ast_agrees_bool
+#print axioms Avo.Mov.ast_agrees
 #print axioms Avo.Mov.mov_ok_partial_bool
 #print axioms Avo.Mov.mov_ok_partial
+#print axioms Avo.Mov.mov_sel_ok
 #print axioms Avo.Mov.mov_err
 #print axioms Avo.Mov.mov_first
 #print axioms Avo.Mov.gp_width_errors
-#print axioms Avo.Mov.gp_loads_defined
 #print axioms Avo.Mov.must_move_defined
 #print axioms Avo.Mov.mov_class_level
 #print axioms Avo.Mov.loadStore_class_invariant
+#print axioms Avo.Mov.extend_sign_spec
+#print axioms Avo.Mov.goConvert_spec
+#print axioms Avo.Mov.regClasses_cover
+#print axioms Avo.Mov.regClasses_cover_specs
